@@ -211,9 +211,11 @@ def _file_exists(path):
 class MetadataBase(object):
     def _assert_type(self, field, expected_types):
         value = getattr(self, field)
-        for atype in expected_types:
-            if isinstance(value, atype):
-                return
+        # bool is a subclass of int: accept it only where bool itself is expected
+        if not isinstance(value, bool) or bool in expected_types:
+            for atype in expected_types:
+                if isinstance(value, atype):
+                    return
         raise TypeError("%s: Field '%s' has invalid type: %s" % (self.__class__.__name__, field, type(value)))
 
     def _assert_value(self, field, expected_values):
